@@ -58,6 +58,23 @@ def child_main(argv):
     params = WARCRecorderParams(compress=compress, log=False, temp_dir=workdir,
                                 max_size=(200 if scenario == 'rollover' else None),
                                 cdx=(scenario == 'cdx'))
+    if scenario == 'fresh':
+        # the monitored append is the very first record of a new archive (the warcinfo record written by the constructor):
+        # the pre-append length is 0
+        with open(os.path.join(workdir, 'snap.bin'), 'wb') as f:
+            pass
+        with open(os.path.join(workdir, 'meta.json'), 'w') as f:
+            json.dump({'warc': 'arch.warc.gz' if compress else 'arch.warc', 'snapshot_len': 0}, f)
+        os.environ['FI_ARMED'] = '1'
+        try:
+            WARCRecorder(prefix, params=params)
+            out = {'raised': None}
+        except BaseException as e:
+            out = {'raised': type(e).__name__, 'text': str(e)[:200], 'is_oserror': isinstance(e, OSError)}
+        os.environ['FI_ARMED'] = '0'
+        with open(result_path, 'w') as f:
+            json.dump(out, f)
+        return
     recorder = WARCRecorder(prefix, params=params)      # writes the warcinfo record
 
     def make(i, n):
@@ -90,12 +107,14 @@ def child_main(argv):
 
 
 # ------------------------------------------------------------------------------------------ parent
-def run_child(workdir, cfg, at, mode, errno_, log=None, scenario=None):
+def run_child(workdir, cfg, at, mode, errno_, log=None, scenario=None, at2=None):
     env = par.child_env({
         'LD_PRELOAD': FI_SO, 'FI_PATH': os.path.join(workdir, 'arch'), 'FI_AT': str(at), 'FI_MODE': mode,
         'FI_ERRNO': str(errno_ or 28), 'FI_ARMED': '0'})
     if log:
         env['FI_LOG'] = log
+    if at2:
+        env['FI_AT2'] = str(at2)
     proc = subprocess.run(
         [par.PY, '-m', 'checks.c06_warcfault', '--child', workdir, '1' if cfg['compress'] else '0',
          str(cfg['earlier']), str(cfg['size']), scenario or cfg.get('scenario', 'plain')],
@@ -137,7 +156,7 @@ def case_worker(job):
     workdir = tempfile.mkdtemp(prefix='vc06')
     replay = {'cfg': cfg, 'k': k, 'mode': mode, 'errno': errno_}
     try:
-        proc = run_child(workdir, cfg, k, mode, errno_)
+        proc = run_child(workdir, cfg, k, mode, errno_, at2=job.get('k2'))
         part.evaluations += 1
         part.count('cases_' + mode)
         opclass = '{}:{}'.format(op['kind'], 'journal' if op['file'].endswith('-wpullinc') else 'archive')
@@ -156,7 +175,8 @@ def case_worker(job):
             with open(warc_path, 'rb') as f:
                 archive = f.read()
         except OSError:
-            archive = None
+            # a fresh archive that was never created is the same as an empty one
+            archive = b'' if not snapshot else None
         journals = sorted(glob.glob(os.path.join(workdir, 'arch*-wpullinc')))
         result = None
         if os.path.exists(os.path.join(workdir, 'result.json')):
@@ -165,6 +185,35 @@ def case_worker(job):
         detail = {'op': op, 'mode': mode, 'errno': errno_, 'cfg': cfg, 'result': result,
                   'archive_len': None if archive is None else len(archive), 'snapshot_len': len(snapshot),
                   'journals': [os.path.basename(j) for j in journals]}
+        if job.get('k2'):
+            # fault sequence: a second error hits the rollback / clean-up.  The archive must either be restored (and the
+            # journal gone) or the journal must still describe how to restore it.
+            part.count('double_fault_cases')
+            detail['k2'] = job['k2']
+            if proc.returncode != 0 or result is None:
+                part.violation('process-died-on-io-error/double-fault', dict(detail, rc=proc.returncode), replay)
+            elif archive == snapshot and not journals:
+                part.count('double_fault_restored')
+            elif result['raised'] is None and valid_archive(archive, cfg['compress']) is True and not journals:
+                part.count('double_fault_not_reached_or_harmless')
+            else:
+                ok = False
+                if journals:
+                    try:
+                        with open(journals[0]) as f:
+                            text = f.read()
+                        off = [int(line.split(':', 1)[1]) for line in text.splitlines() if line.startswith('offset:')]
+                        ok = bool(off) and off[0] == len(snapshot) and archive is not None and archive[:off[0]] == snapshot
+                    except (OSError, ValueError):
+                        ok = False
+                if ok:
+                    part.count('double_fault_journal_still_restores')
+                else:
+                    second = job.get('op2', {})
+                    part.violation('double-fault-leaves-damaged-archive-without-usable-journal/{}+{}:{}'.format(
+                        opclass, second.get('kind'), 'journal' if str(second.get('file', '')).endswith('-wpullinc') else 'archive'),
+                        detail, replay)
+            return part.dump()
         if mode in ('err', 'sticky'):
             if proc.returncode != 0 or result is None:
                 part.violation('process-died-on-io-error/' + opclass, dict(detail, rc=proc.returncode,
@@ -281,6 +330,9 @@ def main():
         for earlier in ((0, 1, 3) if not check.thorough else (0, 1, 2, 3, 8)):
             for size in sizes:
                 cfgs.append({'compress': compress, 'earlier': earlier, 'size': size, 'scenario': 'plain'})
+    # the first record of a fresh archive (pre-append length 0)
+    for compress in (False, True):
+        cfgs.append({'compress': compress, 'earlier': 0, 'size': 0, 'scenario': 'fresh'})
     # size-based rollover: the archive (and its journal) carry a sequence number in their names
     for compress in (False, True):
         cfgs.append({'compress': compress, 'earlier': 1, 'size': 60, 'scenario': 'rollover'})
@@ -299,6 +351,25 @@ def main():
         for op in ops:
             for mode, errno_ in MODES:
                 jobs.append({'cfg': cfg, 'k': op['n'], 'mode': mode, 'errno': errno_, 'op': op})
+    # fault sequences: first error at an archive operation of the append, second error at each of the operations the
+    # rollback / clean-up performs afterwards (their indices are learnt from a run with the first fault alone)
+    for cfg in cfgs:
+        if cfg['scenario'] != 'plain' or cfg['earlier'] != 1 or (cfg['size'] != 60):
+            continue
+        ops = op_lists.get(common.jhash(cfg)) or []
+        for op in ops:
+            if op['file'].endswith('-wpullinc') or op['kind'] == 'unlink':
+                continue
+            workdir = tempfile.mkdtemp(prefix='vc06')
+            try:
+                log = os.path.join(workdir, 'ops.log')
+                run_child(workdir, cfg, op['n'], 'err', 28, log=log)
+                after = [o for o in read_ops(log) if o['n'] > op['n']]
+            finally:
+                shutil.rmtree(workdir, ignore_errors=True)
+            for o2 in after:
+                jobs.append({'cfg': cfg, 'k': op['n'], 'mode': 'err', 'errno': 28, 'op': op, 'k2': o2['n'], 'op2': o2})
+                check.count('fault_sequences_enumerated')
     check.sample({'cfg': cfgs[0], 'operations': op_lists.get(common.jhash(cfgs[0]))})
     check.sample({'cfg': cfgs[-1], 'operations': op_lists.get(common.jhash(cfgs[-1]))})
     res = par.run_jobs('checks.c06_warcfault:case_worker', jobs, check.jobs, timeout=300)
